@@ -141,7 +141,6 @@ func one(disk bool, dir string) (string, map[string]interface{}) {
 		map[string]interface{}{"disk": disk, "stored": nStore, "queries": nQ}
 }
 
-
 // lapse: continuation pages across the expiry of the continuation id's own message.  K stores are
 // filled; page 1 of a query is taken from each while everything is live; after one common pause the
 // short-lived messages have expired and page 2 is requested from an id of page 1.
@@ -175,7 +174,7 @@ func lapse(k int) []string {
 			age := int64(r.Intn(9))
 			m.ID.SetTime(now0 - age)
 			if r.Intn(2) == 0 {
-				m.TTL = uint32(age + 2) // expires at now0+2: live for page 1, gone for page 2
+				m.TTL = uint32(age + 4) // expires at now0+4: live for page 1, gone for page 2
 				l.shortIDs++
 			} else {
 				m.TTL = 3600
@@ -194,10 +193,14 @@ func lapse(k int) []string {
 		ls = append(ls, l)
 	}
 	now1 := time.Now().Unix()
-	if now1 > now0+1 {
-		panic("lapse: phase 1 took too long")
+	if now1 > now0+2 {
+		// a loaded machine: page 1 was not taken safely before the expiry; no verdict from this batch
+		for _, l := range ls {
+			l.st.Close()
+		}
+		return nil
 	}
-	for time.Now().Unix() < now0+3 {
+	for time.Now().Unix() < now0+5 {
 		time.Sleep(100 * time.Millisecond)
 	}
 	time.Sleep(150 * time.Millisecond)
@@ -241,8 +244,10 @@ func main() {
 		}
 		sh.Add(t, h, cl, true)
 	}
-	for _, t := range lapse(8 * cfg.Mult) {
-		sh.Add(t, map[string]interface{}{"op": "continuation across expiry"}, "lapse", true)
+	for b := 0; b < cfg.Mult; b++ {
+		for _, t := range lapse(8) {
+			sh.Add(t, map[string]interface{}{"op": "continuation across expiry"}, "lapse", true)
+		}
 	}
-	sh.Finish("stores of 5-30 messages over contracts {5,9,6} x levels {9,5,11,255,0x1ff,0xffffffff} (5/9 and 9/5 collide in the 32-bit key prefix; ids ending in 0xff) depth 1-3, ages 0..5000 s with many per second, ttl short / long / retained / already expired, payloads up to 30000 bytes (reply-size cap); 6-16 queries each: filters with wildcards, shorter and longer than stored channels, windows, limits 0..100000, continuation from ids of the previous answer or any stored id; in-memory provider and (every 4th) the on-disk provider; lapse: stores whose short-lived messages expire between page 1 and the continuation page (real 3 s pause), continuation from the first / last id of page 1; non-trivial: all")
+	sh.Finish("stores of 5-30 messages over contracts {5,9,6} x levels {9,5,11,255,0x1ff,0xffffffff} (5/9 and 9/5 collide in the 32-bit key prefix; ids ending in 0xff) depth 1-3, ages 0..5000 s with many per second, ttl short / long / retained / already expired, payloads up to 30000 bytes (reply-size cap); 6-16 queries each: filters with wildcards, shorter and longer than stored channels, windows, limits 0..100000, continuation from ids of the previous answer or any stored id; in-memory provider and (every 4th) the on-disk provider; lapse: stores whose short-lived messages expire between page 1 and the continuation page (real 5 s pause), continuation from the first / last id of page 1; non-trivial: all")
 }
